@@ -547,6 +547,9 @@ class SymBytes:
 
     def _realise(self):
         if self.symlen is not None:
+            if self.symlen.hi > (1 << 22) and bool(self.symlen > (1 << 22)):
+                # enumerating the contents of a multi-megabyte buffer of symbolic length is not attempted
+                raise _ex.ForkCap()
             n = conc(self.symlen)
             self.symlen = None
             self.c = [0] * n
